@@ -306,13 +306,16 @@ class XyzAdapter:
         return {"mem": mem, "text": text}
 
 
-def walk(graph, adapter_factory, *, sig=None, per_sig=2, stop_after=12, budget_s=None):
+def walk(graph, adapter_factory, *, sig=None, per_sig=2, stop_after=12, budget_s=None, revisit=False):
     """Exercise every (state, action) pair of a graph whose state-changing edges form a tree-like order
     (an adapter cannot go back): per path, at every state first all not yet exercised state-preserving
     actions (loads), then one not yet exercised state-changing action.  Uses replay.step for the real call
     and the matching, like replay.cover, without its per-step replanning cost.
     Every pair is exercised even after violations; at most `per_sig` violations are kept per signature
     sig(violation) and the walk stops early only after `stop_after` distinct signatures.
+    revisit=True: on the way to a deeper state, state-preserving actions of every state passed
+    are executed (again) before moving on (first, middle and last of them), so that every state-changing call is preceded by reads of the state it
+    changes (what a cache inside the code would need to go stale).
     Returns (stats, violations, samples)."""
     import time
     from .. import replay
@@ -353,8 +356,11 @@ def walk(graph, adapter_factory, *, sig=None, per_sig=2, stop_after=12, budget_s
             try:
                 while True:
                     node = sorted(cands)[0]
+                    reads = ()
                     if plan:
-                        seq = [plan.pop(0)]
+                        lp = loops.get(node, ()) if revisit else ()
+                        reads = [lp[i] for i in sorted({0, len(lp) // 2, len(lp) - 1})] if lp else []
+                        seq = reads + [plan.pop(0)]
                     else:
                         seq = [a for a in loops.get(node, ()) if (node, a) in todo]
                         mv = [a for a in moves.get(node, ()) if (node, a) in todo]
@@ -385,7 +391,9 @@ def walk(graph, adapter_factory, *, sig=None, per_sig=2, stop_after=12, budget_s
                         for n, e in oks:
                             todo.discard((n, akey))
                             matched.add((n, akey, e["to"]))
-                        if akey not in loops.get(node, ()):
+                        if akey in reads:
+                            path.append(oks[0][1]["act"])      # part of the history that leads to what follows
+                        elif akey not in loops.get(node, ()):
                             path.append(oks[0][1]["act"])
                             cands = {e["to"] for _, e in oks}
                     if dead:
